@@ -68,6 +68,18 @@ CLAIMED.update({
              ref="5/C06",
              note="Trusted base: recorder/replayer in harness/chain/record.go, Go runtime map-seed randomisation per process as the source of iteration-order diversity, race detector. Concurrent ABCI calls are deliberately not generated (TM 0.34 serialises them)."),
 })
+
+CLAIMED.update({
+ "C08": dict(tech="runtime monitor: reference model of names/listings/bids vs queries Name/ListOwnedNames/ForSale and bank balances after every rns message",
+             text="Histories of all 14 rns messages by 4 accounts over seeded-to-expire, fresh and free names with targeted stale sequences; after every message the only permitted ownership/data/record change and the payee of paid moves are checked against the model.",
+             ref="5/C08"),
+ "C09": dict(tech="runtime invariant monitor: rns module balance == sum of open bids (AllBids) after every message and BeginBlock; exact refund/payout ledger",
+             text="Bid/cancel/accept/register/buy/transfer interleavings in two denominations with repeated, zero and unaffordable bids; conservation and exact refunds checked at every step.",
+             ref="5/C09"),
+ "C16": dict(tech="runtime oracle: big-integer price and term rules vs registrant/POL balance deltas and Name query after every registration",
+             text="Registrations of names of every price tier/TLD for boundary and overflow-crafted year counts by owner/previous owner/stranger at heights before, at, one after and long after expiry.",
+             ref="5/C16"),
+})
 NOT_BUILT = "monitor not built yet in this session (design in DESIGN.md section 5); will be claimed once its check runs clean"
 
 hooks_commits = subprocess.run(["git", "-C", "/repo", "log", "--format=%H", "--grep=^verif hooks"], capture_output=True, text=True).stdout.split()
